@@ -102,7 +102,9 @@ Definition parse_tcp_sig (t : text) : res tcp_sig :=
 (* ---------------- MTU signature ---------------- *)
 Definition parse_mtu_sig (t : text) : res Z := num_in_range t 1 65535 false.
 
-(* ---------------- HTTP signature ---------------- *)
+(* ---------------- HTTP signature ----------------
+   The signature TEXT is a str (code points); the header list, the absent list and the software are .encode()d first, so the
+   fields of an http_sig are BYTE strings (they are compared with the bytes of a request / response). *)
 Record sig_header := { sh_name : text; sh_optional : bool; sh_value : option text }.
 Record http_sig := { hs_version : Z; hs_headers : list sig_header; hs_absent : list text; hs_software : option text }.
 
@@ -133,10 +135,10 @@ Definition parse_http_version (t : text) : res Z :=
   if text_eqb t (str "*") then Ok (-1) else from_options t [(str "0", 0); (str "1", 1)].
 Definition parse_http_sig (t : text) : res http_sig :=
   let p := split_parts t 4 58 in
-  let absent := match part p 2 with [] => [] | a => map lower (split_on 44 a) end in
+  let absent := match part p 2 with [] => [] | a => map lower (split_on 44 (utf8 a)) end in
   do v <- parse_http_version (part p 0);
-  Ok {| hs_version := v; hs_headers := parse_headers (part p 1); hs_absent := absent;
-        hs_software := match part p 3 with [] => None | s => Some s end |}.
+  Ok {| hs_version := v; hs_headers := parse_headers (utf8 (part p 1)); hs_absent := absent;
+        hs_software := match part p 3 with [] => None | s => Some (utf8 s) end |}.
 
 (* ---------------- labels ---------------- *)
 Inductive label :=
